@@ -15,6 +15,7 @@ STANDINS = [
 LEVELS = {
     "C08": "proof",
     "C09": "proof",
+    "C07": "proof",
 }
 
 _COMMON = [
